@@ -98,6 +98,11 @@ def run_kani_units(prop, tier, root, hs, where, units, replays, jobs):
                 ok, detail = kani.playback(cwd, tgt, r.name, features=feats if where == "infile" else None,
                                            no_default_features=ndf if where == "infile" else False,
                                            log_path=os.path.join(VERIF, "evidence", "logs", f"{prop}-{h['name']}-playback.log"))
+                if ok is not True and where == "ext":
+                    from . import replay_more
+                    ok2, d2 = replay_more.replay_for_harness(h["name"], root)
+                    if ok2 is not None:
+                        ok, detail = ok2, (detail or "") + "\n\n" + d2
                 u["replay_reproduced"] = ok
                 rp = os.path.join(VERIF, "evidence", "replays", f"{prop}-{h['name']}.txt")
                 os.makedirs(os.path.dirname(rp), exist_ok=True)
